@@ -2,7 +2,7 @@
 # run every claimed check (quick) in parallel batches; print exit codes
 cd /verif
 ids=$(python3 -c "import json;print(' '.join(c['property_id'] for c in json.load(open('MANIFEST.json'))['checks']))")
-mkdir -p /tmp/runall
+mkdir -p /tmp/runall; : > /tmp/runall/summary
 for p in $ids; do
   ( ./check $p --tier ${1:-quick} > /tmp/runall/$p.log 2>&1; echo "$p exit=$?" >> /tmp/runall/summary ) &
   while [ $(jobs -r | wc -l) -ge 4 ]; do sleep 1; done
